@@ -13,6 +13,8 @@ type Trace struct {
 	Finish bool    `json:"finish"` // whether the history rules (after drain) are evaluated
 	Expect *Violation `json:"expect,omitempty"`
 	Note   string  `json:"note,omitempty"`
+	// SplitCut > 0: the trace is a C20 process-restart case: execute ops[0:SplitCut] in one fresh process, the rest in another
+	SplitCut int `json:"split_cut,omitempty"`
 }
 
 func (t *Trace) Save(path string) error {
@@ -73,9 +75,13 @@ func firstArmed(cfg *Config, vs []Violation) *Violation {
 func Minimise(t *Trace, want *Violation, budget time.Duration) *Trace {
 	deadline := time.Now().Add(budget)
 	sig := want.Sig()
+	tries := 1
+	if flakyByNature(want) {
+		tries = 4
+	}
 	test := func(ops []Op) bool {
 		c := &Trace{Config: t.Config, Ops: ops, Finish: t.Finish}
-		r := safeExec(c)
+		r := safeExecTries(c, tries)
 		if r == nil {
 			return false
 		}
@@ -168,7 +174,7 @@ func Minimise(t *Trace, want *Violation, budget time.Duration) *Trace {
 	}
 	// 4. drop replicas if not needed
 	out := &Trace{Config: t.Config, Ops: ops, Finish: t.Finish}
-	r := safeExec(out)
+	r := safeExecTries(out, tries*3)
 	if r != nil {
 		if v := firstArmed(t.Config, r.Violations); v != nil {
 			out.Expect = v
@@ -182,6 +188,25 @@ func maxInt(a, b int) int {
 		return a
 	}
 	return b
+}
+
+// flakyByNature: violations whose very content is nondeterminism of the code under test (two executions of the same
+// trace disagree). One execution may happen to agree, so reproduction is attempted several times.
+func flakyByNature(v *Violation) bool {
+	return v != nil && v.Property == "C20" && (v.Rule == "replica_divergence" || v.Rule == "apphash_divergence" || v.Rule == "crash_replay_divergence")
+}
+
+// safeExecTries executes the trace up to n times and returns the first result that violates the armed property
+// (or the last result).
+func safeExecTries(t *Trace, n int) *RunResult {
+	var r *RunResult
+	for i := 0; i < n; i++ {
+		r = safeExec(t)
+		if r != nil && firstArmed(t.Config, r.Violations) != nil {
+			return r
+		}
+	}
+	return r
 }
 
 func safeExec(t *Trace) (r *RunResult) {
